@@ -484,6 +484,11 @@ fn streams(ctx: &mut Ctx) {
             for _ in 0..len { iv.push(rng.next_u64()); }
             let name = format!("{}/vmon-c06-{}-{}-{}", ctx.tmpdir, std::process::id(), ctx.shard, k);
             let r = guard(|| -> Result<(bool, u64), String> {
+                // Every other case overwrites a longer file written earlier: exactly the new structure must remain.
+                if k % 2 == 0 {
+                    let longer = IntVector::with_len(len + 1 + k * 37, 64, 0x5A5A).unwrap();
+                    serialize::serialize_to(&longer, &name).map_err(|e| e.to_string())?;
+                }
                 serialize::serialize_to(&iv, &name).map_err(|e| e.to_string())?;
                 let size = std::fs::metadata(&name).map_err(|e| e.to_string())?.len();
                 let back: IntVector = serialize::load_from(&name).map_err(|e| e.to_string())?;
